@@ -248,13 +248,13 @@ def xfer_plan(thorough):
     p3 = "{{1, 2}, {2, 3}, {1, 2, 3}}"
     # (nr, nf, nc, fine decompositions, parent patches, child patches, max groups, min groups, largest child renumbering kind)
     plan = [(1, 2, 2, "{0}", ALL2, ALL2, 1, 1, 0),
-            (2, 2, 3, "{0, 1, 3}", p3, ALL3, 2, 1, 2),
-            (3, 2, 3, "{0, 1}", p3, "{{2}, {1, 2}, {1, 3}, {1, 2, 3}}", 2, 1, 1),
+            (2, 3, 3, "{0, 1, 3}", p3, ALL3, 2, 1, 2),
+            (3, 3, 3, "{1, 2}", p3, "{{2}, {1, 2}, {1, 3}, {1, 2, 3}}", 2, 1, 1),
             (4, 3, 2, "{1}", "{{1, 2}}", ALL2, 2, 2, 1)]
     if thorough:
         plan = [(1, 2, 2, "{0}", ALL2, ALL2, 1, 1, 0),
-                (2, 2, 3, "{0, 1, 2, 3}", ALL3, ALL3, 2, 1, 5),
-                (3, 2, 3, "{0, 1}", p3, ALL3, 3, 1, 1),
+                (2, 3, 3, "{0, 1, 2, 3}", ALL3, ALL3, 2, 1, 5),
+                (3, 2, 3, "{0, 3}", p3, ALL3, 3, 1, 1),
                 (3, 3, 3, "{1, 2}", "{{1, 2, 3}}", "{{2}, {1, 2}, {1, 3}, {1, 2, 3}}", 2, 1, 5),
                 (4, 3, 2, "{0, 1}", ALL2, ALL2, 4, 1, 1),
                 (5, 3, 2, "{1}", "{{1, 2}}", ALL2, 3, 2, 1),
